@@ -86,6 +86,22 @@ Proof.
     rewrite <- (map_length (pad W) A), skipn_all. reflexivity.
 Qed.
 
+Lemma draw_to_term_nonempty ls n al below W H : fst (fst (draw_to_term ls n al below W H)) <> [].
+Proof.
+  unfold draw_to_term.
+  match goal with |- context [if ?c then ?a else ?b] =>
+    match type of a with (list termop * N * N)%type => destruct (if c then a else b) as [[pops real] shift] end end.
+  cbn [fst]. intros Hn. apply app_eq_nil in Hn. destruct Hn as [_ Hn].
+  unfold clear_ops in Hn. discriminate.
+Qed.
+
+Lemma term_draw_nonempty W H tg ls c : snd (fst (fst (term_draw W H nofail tg ls c))) <> [].
+Proof.
+  unfold term_draw. pose proof (draw_to_term_nonempty ls (tt_n tg) (tt_align tg) (tt_below tg) W H) as Hne.
+  destruct (draw_to_term ls (tt_n tg) (tt_align tg) (tt_below tg) W H) as [[ops n'] below'].
+  rewrite emit_nofail. exact Hne.
+Qed.
+
 (* ------------------------------------------------------------------ the target/terminal invariant *)
 Section Inv.
   Variable W H : N.
@@ -171,3 +187,111 @@ Section Inv.
       unfold clear_ops in Hemp. discriminate.
   Qed.
 End Inv.
+
+(* ------------------------------------------------------------------ the single-bar system *)
+Definition SB (s : sys) (b : bar) (tg : ttarget) : Prop := s_bars s = [b] /\ b_target b = TTerm tg.
+
+Lemma SB_get s b tg : SB s b tg -> get_bar s 0 = b.
+Proof. intros [Hs _]. unfold get_bar, nthN. now rewrite Hs. Qed.
+
+Lemma SB_upd s b tg f : SB s b tg -> b_target (f b) = b_target b -> SB (upd_bar s 0 f) (f b) tg.
+Proof.
+  intros [Hs Ht] Hf. unfold SB, upd_bar. cbn [s_bars set_s_bars]. rewrite Hs. cbn. split; [reflexivity | congruence].
+Qed.
+
+Lemma SB_upd_target s b tg tg' : SB s b tg ->
+  SB (upd_bar s 0 (fun x => set_b_target x (TTerm tg'))) (set_b_target b (TTerm tg')) tg'.
+Proof. intros [Hs Ht]. unfold SB, upd_bar. cbn [s_bars set_s_bars]. rewrite Hs. cbn. split; reflexivity. Qed.
+
+Lemma SB_calls s b tg c : SB s b tg -> SB (set_s_calls s c) b tg.
+Proof. intros Hsb. exact Hsb. Qed.
+
+Lemma expand_indep p b b' :
+  b_pos b = b_pos b' -> b_len b = b_len b' -> b_tick b = b_tick b' -> b_status b = b_status b' ->
+  b_msg b = b_msg b' -> b_prefix b = b_prefix b' -> expand p b = expand p b'.
+Proof.
+  intros H1 H2 H3 H4 H5 H6. destruct p; cbn [expand]; unfold finished; try congruence.
+  - now rewrite H2, H1.
+  - now rewrite H4, H3.
+Qed.
+
+Lemma render_parts_indep b b' :
+  b_pos b = b_pos b' -> b_len b = b_len b' -> b_tick b = b_tick b' -> b_status b = b_status b' ->
+  b_msg b = b_msg b' -> b_prefix b = b_prefix b' ->
+  forall ps cur acc, render_parts ps b cur acc = render_parts ps b' cur acc.
+Proof.
+  intros H1 H2 H3 H4 H5 H6. induction ps as [|p ps IH]; intros cur acc; cbn [render_parts]; [reflexivity|].
+  destruct p; try (rewrite (expand_indep _ b b') by assumption); apply IH.
+Qed.
+
+Lemma frame_of_indep b b' :
+  b_pos b = b_pos b' -> b_len b = b_len b' -> b_tick b = b_tick b' -> b_status b = b_status b' ->
+  b_msg b = b_msg b' -> b_prefix b = b_prefix b' -> b_tmpl b = b_tmpl b' -> frame_of b = frame_of b'.
+Proof.
+  intros H1 H2 H3 H4 H5 H6 H7. unfold frame_of, render. rewrite H4, H7.
+  destruct (b_status b') eqn:E; try reflexivity; apply render_parts_indep; congruence.
+Qed.
+
+Lemma frame_of_set_target b t : frame_of (set_b_target b t) = frame_of b.
+Proof. apply frame_of_indep; reflexivity. Qed.
+Lemma frame_of_set_alive b v : frame_of (set_b_alive b v) = frame_of b.
+Proof. apply frame_of_indep; reflexivity. Qed.
+
+Lemma tt_allow_shape tg force now :
+  tt_n (snd (tt_allow tg force now)) = tt_n tg
+  /\ tt_align (snd (tt_allow tg force now)) = tt_align tg
+  /\ tt_below (snd (tt_allow tg force now)) = tt_below tg.
+Proof.
+  unfold tt_allow. destruct force; [repeat split|]. destruct (tt_rl tg) as [r|]; [|repeat split].
+  destruct (rl_allow r now). cbn. repeat split.
+Qed.
+
+Section SysInv.
+  Variable W H : N.
+  Hypothesis HW : 1 <= W.
+  Hypothesis HH : 1 <= H.
+  Variable pre : list (list N).
+  Let Wn := N.to_nat W.
+  Let Hn := N.to_nat H.
+
+  Lemma TInv_same tg tg' t log frame :
+    tt_n tg' = tt_n tg -> tt_align tg' = tt_align tg -> tt_below tg' = tt_below tg ->
+    TInv W H pre tg t log frame -> TInv W H pre tg' t log frame.
+  Proof. unfold TInv. intros -> -> ->. exact (fun x => x). Qed.
+
+  (** BarState::draw on the single bar *)
+  Lemma bar_draw_inv s b tg t log frame force now s' e :
+    SB s b tg -> TInv W H pre tg t log frame ->
+    bar_draw W H nofail s 0 force now = (s', e) ->
+    (e <> [] -> visual_line_count (frame_of (get_bar s' 0)) W <= H) ->
+    exists b' tg', SB s' b' tg'
+      /\ frame_of b' = frame_of b
+      /\ TInv W H pre tg' (run_ops Wn Hn t e) log
+              (match e with [] => frame | _ => map lt (frame_of b) end).
+  Proof using HW HH.
+    intros Hsb Hinv Hdraw Hfit. unfold bar_draw in Hdraw. rewrite (SB_get _ _ _ Hsb) in Hdraw.
+    destruct Hsb as [Hs Ht]. rewrite Ht in Hdraw.
+    pose proof (tt_allow_shape tg (force || finished b) now) as (Sn & Sa & Sb).
+    destruct (tt_allow tg (force || finished b) now) as [allowed tg1]. cbn [snd] in Sn, Sa, Sb.
+    destruct allowed; cbn [negb] in Hdraw.
+    - pose proof (term_draw_inv W H HW HH pre tg1 t log frame [] (frame_of b) (s_calls s)
+                    (TInv_same _ _ _ _ _ Sn Sa Sb Hinv) (Forall_nil _) (frame_of_bars b)) as Hd.
+      cbn [app] in Hd.
+      destruct (term_draw W H nofail tg1 (frame_of b) (s_calls s)) as [[[tg2 e2] c2] ok2] eqn:Etd.
+      injection Hdraw as <- <-.
+      assert (Hsb' : SB (set_s_calls (upd_bar s 0 (fun x => set_b_target x (TTerm tg2))) c2)
+                        (set_b_target b (TTerm tg2)) tg2).
+      { apply SB_calls. apply (SB_upd_target s b tg). split; assumption. }
+      assert (Hfit' : visual_line_count (frame_of b) W <= H -> True) by trivial.
+      destruct e2 as [|o e2'] eqn:Ee.
+      + exfalso. pose proof (term_draw_nonempty W H tg1 (frame_of b) (s_calls s)) as Hne.
+        rewrite Etd in Hne. cbn [fst snd] in Hne. congruence.
+      + specialize (Hfit ltac:(discriminate)). rewrite (SB_get _ _ _ Hsb'), frame_of_set_target in Hfit.
+        destruct (Hd Hfit) as (Hinv' & _ & _). cbn [map app] in Hinv'. rewrite app_nil_r in Hinv'.
+        exists (set_b_target b (TTerm tg2)), tg2. split; [exact Hsb'|]. split; [apply frame_of_set_target|].
+        exact Hinv'.
+    - injection Hdraw as <- <-. exists (set_b_target b (TTerm tg1)), tg1.
+      split; [apply (SB_upd_target s b tg); split; assumption|]. split; [apply frame_of_set_target|].
+      rewrite run_ops_nil. exact (TInv_same _ _ _ _ _ Sn Sa Sb Hinv).
+  Qed.
+End SysInv.
